@@ -108,6 +108,13 @@ CHECKS = {
         "Trusted: the classification table in oracles/aiken_checks.py (STRUCTURAL). Arguments inhabit the parameter types by construction (type-directed generation + independent type->Data model).",
         "DESIGN.md §3 C06",
     ),
+    "C13": (
+        "exploration",
+        "runtime monitoring: format -> parse round-trip oracle on position-erased syntax trees, ordered comment texts, doc-comment anchors and idempotence, over shipped files, harvested snippets, a systematic surface-grammar enumerator, comment insertion and layout mutation; failing inputs delta-minimised to name the construct",
+        "All 167 shipped .ak files, ~540 snippets harvested from the repository's own tests, ~9 500 systematically enumerated modules covering 196 grammar productions, random modules, ~6 000 comment-insertion variants and ~6 500 layout variants (quick; ~250 000 inputs thorough) are formatted by the real formatter; the output must parse, the full erased trees must be equal after the documented semantics-neutral normalisations, comment texts must be retained in order with every doc comment in front of the same token, and a second formatting must change nothing. Each failing input is minimised; the minimal construct is the violation key.",
+        "Trusted: the span/position eraser over the Debug rendering (harness/src/surface.rs), oracles/surface/{judge,astnorm,classes}.py and the list of accepted normalisations in oracles/surface/NOTES.md.",
+        "DESIGN.md §3 C13",
+    ),
     "C14": (
         "exploration",
         "runtime monitoring: 9-way differential of the real toolchain over all trace levels x scopes (type-check and code generation both under the setting)",
